@@ -25,7 +25,18 @@ func dvFieldsOf(m *model.Seg, extra []string) []string {
 		fs = append(fs, f)
 	}
 	sort.Strings(fs)
-	return append(fs, extra...)
+	// fields without doc values and unknown names must yield nothing
+	seen := map[string]bool{}
+	for _, f := range fs {
+		seen[f] = true
+	}
+	for _, f := range append(append([]string{}, m.Fields...), extra...) {
+		if !seen[f] {
+			seen[f] = true
+			fs = append(fs, f)
+		}
+	}
+	return fs
 }
 
 // CheckDVFieldList checks VisitableDocValueFields against the model.
